@@ -45,6 +45,12 @@ func NeverNil(v ssa.Value, depth int) bool {
 // ways, so every reported path is feasible as far as those facts go and no
 // feasible path is dropped.
 func ReachPhiSensitive(f *ssa.Function, from ssa.Instruction, target, avoid InstrPred) PathResult {
+	return ReachPhiSensitiveV(f, from, func(i ssa.Instruction, _ func(ssa.Value) ssa.Value) bool { return target(i) }, avoid)
+}
+
+// ReachPhiSensitiveV is ReachPhiSensitive with a target predicate that can
+// resolve phi values to what they are on the path being explored.
+func ReachPhiSensitiveV(f *ssa.Function, from ssa.Instruction, target func(ssa.Instruction, func(ssa.Value) ssa.Value) bool, avoid InstrPred) PathResult {
 	type state struct{ b, pred *ssa.BasicBlock }
 	visited := map[state]bool{}
 	var found PathResult
@@ -94,7 +100,7 @@ func ReachPhiSensitive(f *ssa.Function, from ssa.Instruction, target, avoid Inst
 			if avoid != nil && avoid(ins) {
 				return false
 			}
-			if target(ins) {
+			if target(ins, func(v ssa.Value) ssa.Value { return resolve(v, local) }) {
 				found = PathResult{true, ins, append([]*ssa.BasicBlock(nil), trail...)}
 				return true
 			}
